@@ -29,6 +29,9 @@ Rules are phrased over this canonical form so that behaviour-preserving respelli
  N21 `cast(T, e)` -> `e`;  N14b `if T: return True` + `return False` -> `return T` for boolean-valued T
  N23 `v = A; if C: ..; v = B` + the only use `S(v)` (A a plain chain or constant that the arms leave alone, every override in tail
      position) -> the arms that do not override end in `v = A` (N15 then sinks S into the arms)
+ N24 `return next((E for T in XS if C), D)` -> `for T in XS: if C: return E` then `return D`
+ N25 `v = D.get(K)` tested with `v is [not] None` -> the tests become `K [not] in D`, the other reads of v become `D[K]`
+ N26 a list display that is only iterated over or tested for membership (`for x in [a, b]`, `x in [a, b]`) is a tuple display
  N18 a self-assignment `x = x` is dropped
  N6  `v = []` directly followed by `for t in xs: [if c:] v.append(e)` -> `v = [e for t in xs if c]`
 
@@ -69,6 +72,8 @@ class _Norm(ast.NodeTransformer):
 
     def visit_Compare(self, n: ast.Compare):
         self.generic_visit(n)
+        if len(n.ops) == 1 and isinstance(n.ops[0], (ast.In, ast.NotIn)) and isinstance(n.comparators[0], ast.List):
+            n.comparators[0] = ast.copy_location(ast.Tuple(n.comparators[0].elts, ast.Load()), n.comparators[0])
         if (len(n.ops) == 1 and isinstance(n.ops[0], (ast.Eq, ast.NotEq)) and isinstance(n.left, ast.Constant)
                 and not isinstance(n.comparators[0], ast.Constant)):
             return ast.copy_location(ast.Compare(n.comparators[0], n.ops, [n.left]), n)
@@ -193,6 +198,15 @@ class _Norm(ast.NodeTransformer):
     def visit_For(self, n: ast.For):
         n.body = self._continue_guards(n.body)
         self.generic_visit(n)
+        # N26: a list display that is only iterated over is a tuple display
+        if isinstance(n.iter, ast.List):
+            n.iter = ast.copy_location(ast.Tuple(n.iter.elts, ast.Load()), n.iter)
+        return n
+
+    def visit_comprehension(self, n: ast.comprehension):
+        self.generic_visit(n)
+        if isinstance(n.iter, ast.List):
+            n.iter = ast.copy_location(ast.Tuple(n.iter.elts, ast.Load()), n.iter)
         return n
 
     def visit_While(self, n: ast.While):
@@ -203,12 +217,52 @@ class _Norm(ast.NodeTransformer):
     def _visit_fn(self, n):
         self.fn_stack.append(n)
         self._search_loops(n, n.body, True)
+        self._next_to_loop(n, n.body)
         self.generic_visit(n)
         self.fn_stack.pop()
         self._propagate_chain_aliases(n)
+        self._lookup_via_get(n)
         self._fold_blocks(n, n)
         self._propagate_block_temps(n)
         return n
+
+    @staticmethod
+    def _lookup_via_get(fn):
+        """N25: `v = D.get(K)` (v bound once; D, K plain chains the function does not assign) whose value is tested with
+        `v is None` / `v is not None`  ->  the tests become `K not in D` / `K in D`, the other reads of v become `D[K]`"""
+        import copy
+        stored_attrs = {n.attr for n in ast.walk(fn) if isinstance(n, ast.Attribute) and isinstance(n.ctx, (ast.Store, ast.Del))}
+        stored_names = {n.id for n in ast.walk(fn) if isinstance(n, ast.Name) and not isinstance(n.ctx, ast.Load)}
+        for blk in _Norm._blocks(fn):
+            for st in list(blk):
+                if not (isinstance(st, ast.Assign) and len(st.targets) == 1 and isinstance(st.targets[0], ast.Name)
+                        and isinstance(st.value, ast.Call) and isinstance(st.value.func, ast.Attribute) and st.value.func.attr == 'get'
+                        and len(st.value.args) == 1 and not st.value.keywords and _is_chain(st.value.func.value)
+                        and (_is_chain(st.value.args[0]) or isinstance(st.value.args[0], ast.Constant))):
+                    continue
+                v, D, K = st.targets[0].id, st.value.func.value, st.value.args[0]
+                chain_attrs = {n.attr for x in (D, K) for n in ast.walk(x) if isinstance(n, ast.Attribute)}
+                chain_names = {n.id for x in (D, K) for n in ast.walk(x) if isinstance(n, ast.Name)}
+                if chain_attrs & stored_attrs or chain_names & stored_names or _captured(fn, v):
+                    continue
+                stores = [n for n in ast.walk(fn) if isinstance(n, ast.Name) and n.id == v and not isinstance(n.ctx, ast.Load)]
+                if len(stores) != 1:
+                    continue
+                tests = [c for c in ast.walk(fn) if isinstance(c, ast.Compare) and len(c.ops) == 1 and isinstance(c.ops[0], (ast.Is, ast.IsNot))
+                         and isinstance(c.left, ast.Name) and c.left.id == v and isinstance(c.comparators[0], ast.Constant)
+                         and c.comparators[0].value is None]
+                loads = [n for n in ast.walk(fn) if isinstance(n, ast.Name) and n.id == v and isinstance(n.ctx, ast.Load)]
+                if not tests or any((getattr(n, 'lineno', 0), getattr(n, 'col_offset', 0)) <= (st.lineno, st.col_offset) for n in loads):
+                    continue
+                for c in tests:
+                    op = ast.In() if isinstance(c.ops[0], ast.IsNot) else ast.NotIn()
+                    new = ast.copy_location(ast.Compare(copy.deepcopy(K), [op], [copy.deepcopy(D)]), c)
+                    _replace(fn, c, new)
+                for n in [n for n in ast.walk(fn) if isinstance(n, ast.Name) and n.id == v and isinstance(n.ctx, ast.Load)]:
+                    _replace(fn, n, ast.copy_location(ast.Subscript(copy.deepcopy(D), copy.deepcopy(K), ast.Load()), n))
+                blk.remove(st)
+                if not blk:
+                    blk.append(ast.copy_location(ast.Pass(), st))
 
     @staticmethod
     def _propagate_chain_aliases(fn):
@@ -380,6 +434,42 @@ class _Norm(ast.NodeTransformer):
             out.append(s)
             i += 1
         return out
+
+    @staticmethod
+    def _next_to_loop(fn, stmts):
+        """N24: `return next((E for T in XS if C), D)` -> `for T in XS: if C: return E` followed by `return D`"""
+        i = 0
+        while i < len(stmts):
+            s = stmts[i]
+            if (isinstance(s, ast.Return) and isinstance(s.value, ast.Call) and isinstance(s.value.func, ast.Name) and s.value.func.id == 'next'
+                    and len(s.value.args) == 2 and not s.value.keywords and isinstance(s.value.args[0], ast.GeneratorExp)
+                    and len(s.value.args[0].generators) == 1 and not s.value.args[0].generators[0].is_async
+                    and isinstance(s.value.args[1], (ast.Constant, ast.Name))):
+                ge = s.value.args[0]
+                g = ge.generators[0]
+                tv = {n.id for n in ast.walk(g.target) if isinstance(n, ast.Name)}
+                inside = {id(n) for n in ast.walk(ge)}
+                clash = any(isinstance(n, ast.Name) and n.id in tv and id(n) not in inside for n in ast.walk(fn))
+                if not clash:
+                    ret = ast.copy_location(ast.Return(ge.elt), s)
+                    inner = ret
+                    if g.ifs:
+                        cond = g.ifs[0] if len(g.ifs) == 1 else ast.BoolOp(ast.And(), list(g.ifs))
+                        inner = ast.copy_location(ast.If(cond, [ret], []), s)
+                    for n in ast.walk(g.target):
+                        if isinstance(n, ast.Name):
+                            n.ctx = ast.Store()
+                    loop = ast.copy_location(ast.For(g.target, g.iter, [inner], [], lineno=s.lineno), s)
+                    stmts[i:i + 1] = [loop, ast.copy_location(ast.Return(s.value.args[1]), s)]
+                    i += 2
+                    continue
+            for fld in ('body', 'orelse', 'finalbody'):
+                v = getattr(s, fld, None)
+                if isinstance(v, list) and v and isinstance(v[0], ast.stmt) and not isinstance(s, (ast.FunctionDef, ast.AsyncFunctionDef, ast.ClassDef)):
+                    _Norm._next_to_loop(fn, v)
+            for h in getattr(s, 'handlers', []) or []:
+                _Norm._next_to_loop(fn, h.body)
+            i += 1
 
     @staticmethod
     def _search_loops(fn, stmts, tail: bool):
